@@ -52,8 +52,33 @@ type c28txn struct {
 
 // c28node is one simulated node: its state DB and what the transactions of a
 // round do (the stand-in for Chain.UpdateState).
+// c28pdb stands in for the node's persistent state DB: like RocksDB it hands out a freshly
+// decoded node on every read, so node objects are shared only among the in-memory levels
+// of blocks that are not saved yet (which the real chain reaches through its state cache).
+type c28pdb struct{ *util.MemoryNodeDB }
+
+func (p *c28pdb) GetNode(key util.Key) (util.Node, error) {
+	n, err := p.MemoryNodeDB.GetNode(key)
+	if err != nil {
+		return nil, err
+	}
+	return util.CreateNode(bytes.NewReader(n.Encode()))
+}
+
+func (p *c28pdb) MultiGetNode(keys []util.Key) (nodes []util.Node, err error) {
+	for _, k := range keys {
+		n, e := p.GetNode(k)
+		if e != nil {
+			err = e
+			continue
+		}
+		nodes = append(nodes, n)
+	}
+	return nodes, err
+}
+
 type c28node struct {
-	db    *util.MemoryNodeDB
+	db    *c28pdb
 	progs map[int64][]c28txn
 	sc    *statecache.StateCache
 	lost  map[int64]string // round being executed -> first removal of a node of this block that no collector recorded
@@ -61,7 +86,7 @@ type c28node struct {
 }
 
 func c28newNode() *c28node {
-	return &c28node{db: util.NewMemoryNodeDB(), progs: map[int64][]c28txn{}, sc: statecache.NewStateCache(), lost: map[int64]string{}, lostB: map[string]string{}}
+	return &c28node{db: &c28pdb{util.NewMemoryNodeDB()}, progs: map[int64][]c28txn{}, sc: statecache.NewStateCache(), lost: map[int64]string{}, lostB: map[string]string{}}
 }
 
 func (n *c28node) GetPreviousBlock(ctx context.Context, b *Block) *Block {
@@ -207,6 +232,7 @@ func (n *c28node) genesis(round int64, kv map[string]string) *Block {
 	if err := g.ClientState.SaveChanges(context.Background(), n.db, false); err != nil {
 		panic("VERIF-HARNESS-ERROR genesis save: " + err.Error())
 	}
+	g.ClientState.SetNodeDB(n.db) // Chain.rebaseState: a finalized block's state reads the persistent DB
 	return g
 }
 
